@@ -1,0 +1,12 @@
+//go:build !verif
+
+// Package verifhook holds verification-only hook points. Without the verif build tag they do nothing.
+package verifhook
+
+import "time"
+
+// Yield does nothing unless built with the verif tag.
+func Yield(_ string) {}
+
+// Wait returns d unless built with the verif tag.
+func Wait(d time.Duration) time.Duration { return d }
